@@ -418,8 +418,8 @@ def page_valid(chk, P, E, rule):
     chk.rule(rule, 'a page is looked at only while it is the page libogg last found: an ogg_page is a set of pointers into the '
              'ogg_sync buffer.  In vorbisfile.c a page object is VALID from a fetch that reported a page (ogg_sync_pageseek > 0, '
              'or a helper that takes the page by pointer and returned >= 0 -- helpers are verified, not assumed: each returns '
-             'non-negative only with the page valid) until the next call that may touch the sync buffer (K3: may write '
-             'vf->oy -- a further fetch that finds nothing, _get_data, _seek_helper).  Every ogg_page_* accessor call, every '
+             'non-negative only with the page valid) until the next call that may recycle the sync buffer\'s memory (anything that can '
+             'reach ogg_sync_buffer / _wrote / _clear: a further fetch that finds nothing, _get_data; not ogg_sync_reset).  Every ogg_page_* accessor call, every '
              'ogg_stream_pagein and every non-negative return of such a helper is reached only with the page valid (K4 forked on '
              'the result class of each fetch; og->header_len is followed through memset and fetch so that the "re-read if we no '
              'longer hold it" test is understood).  After a failed look-ahead the buffer may have been compacted or reallocated: '
@@ -427,7 +427,24 @@ def page_valid(chk, P, E, rule):
     import absint
     from absint import V
     import k6
-    oy_writers = {k for k, sm in E.summ.items() if any(r == 'OggVorbis_File' and f == 'oy' for (o, r, f) in sm['stores'])}
+    # what recycles the sync buffer's memory: ogg_sync_buffer (compacts / reallocates), ogg_sync_wrote, _clear, _init -- and every
+    # function that can reach one of them.  ogg_sync_reset only rewinds the fill marks: pointers into the buffer stay good until
+    # the next read.
+    MOVERS = {'ogg_sync_buffer', 'ogg_sync_wrote', 'ogg_sync_clear', 'ogg_sync_init'}
+    oy_writers = set()
+    for F_ in P.functions():
+        if any(F_.ex[c]['callee'].get('d') in MOVERS for c in F_.calls()):
+            oy_writers.add(P.key(F_))
+    grew = True
+    while grew:
+        grew = False
+        for F_ in P.functions():
+            k_ = P.key(F_)
+            if k_ in oy_writers:
+                continue
+            if any(t in oy_writers for c in F_.calls() for t in P.call_targets(F_, c)):
+                oy_writers.add(k_)
+                grew = True
     fns = [F for F in P.functions() if F.file.endswith('vorbisfile.c')]
     fetchers = {}       # key -> page param index: returns >= 0 only with the page valid (verified below)
     ent = entry_states(P)
@@ -471,7 +488,7 @@ def page_valid(chk, P, E, rule):
                             v_ = _addr_of_var(F, args[0])
                             fl = fl - {('V', v_)}
                             env[pkey(v_)] = V(0, 0)
-                        elif any(t in oy_writers for t in P.call_targets(F, e)) or nm in ('ogg_sync_reset', 'ogg_sync_buffer', 'ogg_sync_wrote', 'ogg_sync_clear'):
+                        elif any(t in oy_writers for t in P.call_targets(F, e)) or nm in MOVERS:
                             fl = frozenset(x for x in fl if x[0] != 'V')
                 elif nd['k'] == 'assign' and nd['op'] == '=':
                     l = A.ex[F.strip_casts(nd['c'][0])]
